@@ -444,6 +444,8 @@ def check_case(cfg, muts, sess, engine=True, script=True):
     case = {"cfg": cfg, "muts": muts}
     sess.evaluations += 1
     sess.count("configs_validated")
+    if muts:
+        sess.sample({"mutations": muts, "config_top_level_keys": sorted(map(str, cfg.keys())) if isinstance(cfg, dict) else str(type(cfg))})
     ok, norm, msgs = api_round(cfg, sess, case)
     if ok is None:
         return
